@@ -356,6 +356,7 @@ func r15_4(c *Ctx, r *Report) {
 		}
 		var kinds []string
 		var counter *ssa.Phi
+		shift := int64(0)
 		for _, b := range fn.Blocks {
 			for _, ins := range b.Instrs {
 				call, ok := ins.(*ssa.Call)
@@ -379,7 +380,19 @@ func r15_4(c *Ctx, r *Report) {
 						k = "first"
 					case "calendar.(*Solar).NextDay":
 						base, okb := vc.Common().Args[0].(*ssa.Call)
-						phi, isPhi := vc.Common().Args[1].(*ssa.Phi)
+						// the offset: the loop counter, possibly plus or minus a constant
+						off := vc.Common().Args[1]
+						if bo, ok := off.(*ssa.BinOp); ok && (bo.Op == token.ADD || bo.Op == token.SUB) {
+							if k, isK := constInt(bo.Y); isK {
+								if bo.Op == token.SUB {
+									k = -k
+								}
+								off, shift = bo.X, k
+							} else if k, isK := constInt(bo.X); isK && bo.Op == token.ADD {
+								off, shift = bo.Y, k
+							}
+						}
+						phi, isPhi := off.(*ssa.Phi)
 						if okb && base.Common().StaticCallee() != nil && isPhi {
 							bn := fname(base.Common().StaticCallee())
 							if bn == "calendar.NewSolarFromYmd" || bn == "calendar.(*SolarWeek).GetFirstDay" {
@@ -394,7 +407,7 @@ func r15_4(c *Ctx, r *Report) {
 		}
 		sort.Strings(kinds)
 		// the step counter starts at 1 after a separate push of the first day, or at 0 without one; step +1
-		init, step := int64(-1), int64(0)
+		init, step, last := int64(-1), int64(0), int64(-1)
 		var bound ssa.Value
 		if counter != nil {
 			for _, e := range counter.Edges {
@@ -405,12 +418,24 @@ func r15_4(c *Ctx, r *Report) {
 				}
 			}
 			if iff, ok := counter.Block().Instrs[len(counter.Block().Instrs)-1].(*ssa.If); ok {
-				if bo, ok := iff.Cond.(*ssa.BinOp); ok && bo.Op == token.LSS && bo.X == ssa.Value(counter) {
-					bound = bo.Y
+				if bo, ok := iff.Cond.(*ssa.BinOp); ok {
+					x, y, op := bo.X, bo.Y, bo.Op
+					if y == ssa.Value(counter) {
+						x, y, op = y, x, flipOp(op)
+					}
+					if x == ssa.Value(counter) && (op == token.LSS || op == token.LEQ) {
+						bound = y
+						if op == token.LEQ {
+							last = 0 // the counter reaches the bound itself
+						}
+					}
 				}
 			}
 		}
-		shape := (equalStrs(kinds, []string{"first", "step"}) && init == 1 && step == 1) || (equalStrs(kinds, []string{"step"}) && init == 0 && step == 1)
+		// offsets pushed by the loop: init+shift .. bound+last+shift; they must be 1 .. days-1 after a separate
+		// push of the first day, or 0 .. days-1 without one
+		first := init + shift
+		shape := step == 1 && last+shift == -1 && ((equalStrs(kinds, []string{"first", "step"}) && first == 1) || (equalStrs(kinds, []string{"step"}) && first == 0))
 		boundOK, boundDesc := false, "?"
 		if bound != nil {
 			if k, ok := constInt(bound); ok {
@@ -420,7 +445,7 @@ func r15_4(c *Ctx, r *Report) {
 				boundOK = name == "calendar.(*SolarMonth).GetDays" && boundDesc == "GetDaysOfMonth(p0.year, p0.month)"
 			}
 		}
-		r.check(shape && boundOK, rule, name+" lists the first day and steps from it", c.fnPos(fn), fmt.Sprintf("pushed elements: %v; step counter from %d by %d while < %s", kinds, init, step, boundDesc))
+		r.check(shape && boundOK, rule, name+" lists the first day and steps from it", c.fnPos(fn), fmt.Sprintf("pushed elements: %v; offsets from %d by %d up to %s%+d", kinds, first, step, boundDesc, last+shift))
 	}
 }
 
